@@ -1,4 +1,6 @@
 import HexProofs.Manager.Trim
+import HexProofs.Manager2.TwinTreesFillHA
+import HexProofs.Writes.MembersC15HA
 import HexProofs.Manager2.TwinTreesHA
 import HexProofs.Writes.MembersC15
 import HexProofs.Manager2.TrimTf
@@ -738,5 +740,90 @@ set_option synthInstance.maxSize 4000 in
 example : (runTtfha (.atr 3) "ATR_3").toOption.map (·.map (fun c => (viewHA c, view c)))
     = (runUtfha (.atr 3) "ATR_3").toOption.map (fun b => (b.drop 3).map (fun c => (viewHA c, view c))) := by
   decide +kernel
+
+/-- **C15, second clause, on a collapsing timeframe with gap filling AND Heikin-Ashi conversion – every shipped class**:
+`{timeframe, timeframe_fill, candlestick = HA, candles_lifespan}` next to `{timeframe, timeframe_fill, candlestick = HA}`
+under EXACTLY the hypothesis of `C15b_trees_tf_fill` (`RetainsFilled`: `treeLook` CLOSED candles – buckets and fill
+candles of the unconverted filled stream – retained at every popping append).  (`TwinMgr.fillHA`,
+HexProofs/Manager2/TwinTreesFillHA.lean) -/
+theorem C15b_trees_tf_fill_ha (k : Kind F) (name : String) (round : Nat) (hc : CoveredTreeX name k)
+    (tf : Int) (htf : 0 < tf) (life : Int) (init : List (Candle F)) (chunks : List (List (Candle F)))
+    (hraw : RawStream (init ++ chunks.flatten)) (hp : ∀ c ∈ init ++ chunks.flatten, Plain c)
+    (htag : ∀ c ∈ init ++ chunks.flatten, c.tag = false)
+    (hinit : trimCandles (some life) (fillSpec tf init) = .ok (fillSpec tf init))
+    (hret : RetainsFilled (treeLook k name round) tf life init 0 chunks) (a b : List (Candle F))
+    (ha : candlesOf (runIndicator (mkTop k name round)
+            { tf := some tf, fill := true, ha := true, lifespan := some life } init chunks) = .ok a)
+    (hb : candlesOf (runIndicator (mkTop k name round) { tf := some tf, fill := true, ha := true } init chunks)
+            = .ok b) : ∃ d, a = b.drop d :=
+  Hex.C15b_trees_tf_fill_ha k name round hc tf htf life init chunks
+    ⟨⟨hraw.stamped, hraw.plain, hraw.sorted, hp⟩, htag⟩ hinit hret a b ha hb
+
+/-- **C15, second clause, inside a Heikin-Ashi Hexital – member without timeframe of a Hexital without timeframe** -/
+theorem C15b_member_ha {N : List String} {members : List (Member F)} {mem : Member F}
+    (hm : MemberHyps N members mem) (k : Kind F) (name : String) (round : Nat) (hc : CoveredTreeX name k)
+    (htree : mem.tree = mkTop k name round) (hnone : mem.tfName = none)
+    (life : Int) (init : List (Candle F)) (chunks : List (List (Candle F)))
+    (hp : ∀ c ∈ init ++ chunks.flatten, Plain c) (htag : ∀ c ∈ init ++ chunks.flatten, c.tag = false)
+    (hinit : trimCandles (some life) init = .ok init)
+    (hret : RetainsFrom (treeLook k name round) life init init.length chunks) (HA HB : Hexital F)
+    (hA : runHexSched { ha := true, lifespan := some life } none init members chunks = .ok HA)
+    (hB : runHexSched { ha := true } none init members chunks = .ok HB) :
+    ∃ d mA mB, HA.memberManager mem.tree.name = some mA ∧ HB.memberManager mem.tree.name = some mB ∧
+      mA.cfg = { ha := true, lifespan := some life } ∧ mB.cfg = { ha := true } ∧
+      SameView mem.tree.allNames mA.candles (mB.candles.drop d) ∧
+      ∀ nm, (splitDot nm).headD "" = mem.tree.name → readOK N nm = true →
+        ∃ col, HB.readingAsList nm = .ok col ∧ HA.readingAsList nm = .ok (col.drop d) :=
+  member_C15b_ha hm k name round hc htree hnone life init chunks (fun c hc' => ⟨hp c hc', htag c hc'⟩) hinit hret
+    HA HB hA hB
+
+/-- **… members on a collapsing timeframe of a Heikin-Ashi Hexital** (hypotheses of `C15b_trees_tf_ha`) -/
+theorem C15b_member_tf_ha {N : List String} {members : List (Member F)} {mem : Member F}
+    (hm : MemberHyps N members mem) (k : Kind F) (name : String) (round : Nat) (hc : CoveredTreeX name k)
+    (htree : mem.tree = mkTop k name round) (htfx : Option Int) (tfn : Option String) (tf : Int) (htf : 0 < tf)
+    (heff : mem.effTf htfx = some tf) (life : Int) (init : List (Candle F)) (chunks : List (List (Candle F)))
+    (hraw : RawStream (init ++ chunks.flatten)) (hp : ∀ c ∈ init ++ chunks.flatten, Plain c)
+    (htag : ∀ c ∈ init ++ chunks.flatten, c.tag = false)
+    (hinit : trimCandles (some life) (resample tf init) = .ok (resample tf init))
+    (hret : RetainsBuckets (treeLook k name round) tf life init 0 chunks) (HA HB : Hexital F)
+    (hA : runHexSched { tf := htfx, ha := true, lifespan := some life } tfn init members chunks = .ok HA)
+    (hB : runHexSched { tf := htfx, ha := true } tfn init members chunks = .ok HB) :
+    ∃ d mA mB, HA.memberManager mem.tree.name = some mA ∧ HB.memberManager mem.tree.name = some mB ∧
+      mA.cfg = { tf := some tf, ha := true, lifespan := some life } ∧ mB.cfg = { tf := some tf, ha := true } ∧
+      SameView mem.tree.allNames mA.candles (mB.candles.drop d) ∧
+      ∀ nm, (splitDot nm).headD "" = mem.tree.name → readOK N nm = true →
+        ∃ col, HB.readingAsList nm = .ok col ∧ HA.readingAsList nm = .ok (col.drop d) :=
+  member_C15b_tf_ha hm k name round hc htree htfx tfn tf htf heff life init chunks
+    ⟨⟨hraw.stamped, hraw.plain, hraw.sorted, hp⟩, htag⟩ hinit hret HA HB hA hB
+
+/-- **… and with `timeframe_fill = True`** (hypotheses of `C15b_trees_tf_fill_ha`) -/
+theorem C15b_member_tf_fill_ha {N : List String} {members : List (Member F)} {mem : Member F}
+    (hm : MemberHyps N members mem) (k : Kind F) (name : String) (round : Nat) (hc : CoveredTreeX name k)
+    (htree : mem.tree = mkTop k name round) (htfx : Option Int) (tfn : Option String) (tf : Int) (htf : 0 < tf)
+    (heff : mem.effTf htfx = some tf) (life : Int) (init : List (Candle F)) (chunks : List (List (Candle F)))
+    (hraw : RawStream (init ++ chunks.flatten)) (hp : ∀ c ∈ init ++ chunks.flatten, Plain c)
+    (htag : ∀ c ∈ init ++ chunks.flatten, c.tag = false)
+    (hinit : trimCandles (some life) (fillSpec tf init) = .ok (fillSpec tf init))
+    (hret : RetainsFilled (treeLook k name round) tf life init 0 chunks) (HA HB : Hexital F)
+    (hA : runHexSched { tf := htfx, fill := true, ha := true, lifespan := some life } tfn init members chunks = .ok HA)
+    (hB : runHexSched { tf := htfx, fill := true, ha := true } tfn init members chunks = .ok HB) :
+    ∃ d mA mB, HA.memberManager mem.tree.name = some mA ∧ HB.memberManager mem.tree.name = some mB ∧
+      mA.cfg = { tf := some tf, fill := true, ha := true, lifespan := some life } ∧
+      mB.cfg = { tf := some tf, fill := true, ha := true } ∧
+      SameView mem.tree.allNames mA.candles (mB.candles.drop d) ∧
+      ∀ nm, (splitDot nm).headD "" = mem.tree.name → readOK N nm = true →
+        ∃ col, HB.readingAsList nm = .ok col ∧ HA.readingAsList nm = .ok (col.drop d) :=
+  member_C15b_tf_fill_ha hm k name round hc htree htfx tfn tf htf heff life init chunks
+    ⟨⟨hraw.stamped, hraw.plain, hraw.sorted, hp⟩, htag⟩ hinit hret HA HB hA hB
+
+/-- non-vacuity -/
+example (a b : List (Candle Int)) (ha : runTfillha (.atr 3) "ATR_3" = .ok a)
+    (hb : runUfillha (.atr 3) "ATR_3" = .ok b) : ∃ d, a = b.drop d :=
+  C15b_trees_tf_fill_ha (.atr 3) "ATR_3" 4 atrDemoOK 120 (by decide) 600 tfInit tfChunksGap
+    ⟨tfGap_raw.stamped, tfGap_raw.cleanNone, tfGap_raw.sorted⟩ tfGap_raw.plain (by decide) tfGap_init
+    (by rw [atrDemo_look]; exact tfGap_retains) a b ha hb
+example := @MembersC15HAEx.applied_tf_ha
+example := @MembersC15HAEx.applied_ha
+example := @MembersC15HAEx.applied_fill_ha
 
 end Hex.C15
